@@ -542,6 +542,7 @@ def judge_history(ctx, model, log, cov):
             want = J.described_image(pre[0]) if pre else None
         # -- transmissions of this call
         events = []
+        rx_bytes = {}
         txs = []
         for wi, w in enumerate(st["cmd"]):
             p = parsed_at.get((si, wi))
@@ -614,6 +615,9 @@ def judge_history(ctx, model, log, cov):
                 J.store[k][ident] = {"img": content, "r": r, "c": c, "fmt": fmt, "step": si, "limit": limit}
             else:
                 J.store[k].pop(ident, None)
+            # the number of bytes this terminal received for the image: the inline payload, or the named file as it was
+            received = len(tx["data"]) if med not in ("f", "t") else (len(bytes.fromhex(tx["snap"]["data"])) if tx.get("snap") and tx["snap"].get("data") is not None else None)
+            rx_bytes[ident] = received
             events.append(("T", k + 1, ident, med, pk, r, c))
         # -- the placeholder printed by this call
         printed = None
@@ -673,6 +677,10 @@ def judge_history(ctx, model, log, cov):
         for row in st["up"]:
             if row[1] == f"term{k}" and row[4] == st["now"]:
                 enc_size = row[3]
+                # C04 counts bytes: what is recorded for an upload is what the terminal received for it
+                if row[0] in rx_bytes and rx_bytes[row[0]] is not None and rx_bytes[row[0]] != row[3]:
+                    V("recorded-size-differs-from-received-bytes",
+                      f"terminal {k} received {rx_bytes[row[0]]} bytes for id {row[0]}, the upload table records size {row[3]} (needs_uploading's byte threshold counts the recorded sizes)", si)
         got_id = res["id"] if res else 0
         if subj[0] in ("mem", "file") and not res:
             # the id get_id returned (and the cols x rows it computed) are visible in the table dump even when the call raised later
@@ -1032,6 +1040,11 @@ def run(ctx, model):
         elif o["violates"]:
             ctx.violations.append({"signature": {"class": klass}, "what": what + f" — observed {o}", "case": {"kind": f"witness-{which}"}})
     chunk_boundaries(ctx, model, cov)
+    # the glue around the verified calls: the command line, and settings re-assigned on a live terminal object
+    import c08_cli
+    c08_cli.cli_equivalence(ctx, cov, ctx.pick(14, 60))
+    c08_cli.cli_id_scenarios(ctx, cov)
+    c08_cli.reconfigure_equivalence(ctx, cov, ctx.pick(40, 300))
     n = ctx.pick(200, 5000)
     jobs = plan_jobs(ctx, n)
     logs, err = run_jobs(ctx, jobs)
@@ -1171,6 +1184,21 @@ def replay(ctx, model, rec):
         return run_witness(ctx, "mark")
     if kind in ("witness-digest", "witness-same-bytes"):
         return run_witness(ctx, "digest")
+    if kind == "cli-id":
+        import c08_cli
+        sub = common.Ctx(ctx.prop, ctx.tier, ctx.seed)
+        sub.work = ctx.work
+        c08_cli.cli_id_scenarios(sub, common.Coverage("replay"))
+        return {"violates": bool(sub.violations), "violations": [v["what"] for v in sub.violations][:4]}
+    if kind in ("cli-equivalence", "reconfigure"):
+        import c08_cli
+        sub = common.Ctx(ctx.prop, ctx.tier, ctx.seed)
+        sub.work = ctx.work
+        if kind == "cli-equivalence":
+            c08_cli.cli_equivalence(sub, common.Coverage("replay"), 14)
+        else:
+            c08_cli.reconfigure_equivalence(sub, common.Coverage("replay"), 60, must_change=sorted(k for k in case["after"] if case["after"][k] != case["before"][k])[:1] or None)
+        return {"violates": bool(sub.violations), "violations": [v["what"] for v in sub.violations][:4]}
     if kind == "chunk-boundary":
         sub = common.Ctx(ctx.prop, ctx.tier, ctx.seed)
         sub.work = ctx.work
